@@ -1,6 +1,6 @@
 (* Wire entry points of the C02 model (standard combination on uniform trapezoidal grids). *)
 From Coq Require Import ZArith List Bool QArith Qcanon.
-From SG Require Import Base.Sx Base.QcUtil Model.CombiScheme Model.StdCombi Proofs.SchemeStd Proofs.StdCombiSum.
+From SG Require Import Base.Sx Base.QcUtil Model.CombiScheme Model.StdCombi Model.TrapGrid1DArea Model.StdCombiTol Proofs.SchemeStd Proofs.StdCombiSum Proofs.StdUnion.
 Import ListNotations.
 Open Scope Z_scope.
 
@@ -34,6 +34,57 @@ Definition entry_C02 (sub : Z) (arg : sx) : sx :=
                                     of_LQc (comp_weights boundary a b (fst kv))]) cs);
              of_LQc (map (combi_interp boundary a b cs f) pts);
              of_Qc (combi_integral boundary a b cs f) ]
+      | None => sx_err 2
+      end
+    | _, _, _ => sx_err 1
+    end
+  (* sub 1: (boundary a b lmin lmax (fspec ...) evalpoints want_pw) ->
+       (std_eq_adaptive scheme ((numpoints points weights) per component) (values per function) (integral per function)
+        number-of-distinct-points = sum_l c_l * prod N(l_d)  [Proofs/StdUnion.v: std_total_points]
+        (point weight*coefficient) list of the whole combination (only when want_pw <> 0)) *)
+  | 1, Lv [Zv bd; a; b; Zv lmin; Zv lmax; Lv fss; pts; Zv want_pw] =>
+    match get_LQc a, get_LQc b, get_LLQc pts with
+    | Some a, Some b, Some pts =>
+      match opt_all (map (get_fun a b) fss) with
+      | Some fs =>
+        let boundary := negb (bd =? 0) in
+        let d := length a in
+        let cs := combi_scheme_standard d lmin lmax in
+        Lv [ sx_bool (std_perm_check d lmin lmax);
+             Lv (map (fun kv => Lv [of_LZ (fst kv); Zv (snd kv)]) cs);
+             Lv (map (fun kv => Lv [of_LZ (comp_num_points boundary (fst kv));
+                                    of_LLQc (comp_points boundary a b (fst kv));
+                                    of_LQc (comp_weights boundary a b (fst kv))]) cs);
+             Lv (map (fun f => of_LQc (map (combi_interp boundary a b cs f) pts)) fs);
+             of_LQc (map (combi_integral boundary a b cs) fs);
+             Zv (combi_total_points boundary cs);
+             (if want_pw =? 0 then Lv []
+              else Lv (map (fun pw => Lv [of_LQc (fst pw); of_Qc (snd pw)]) (combi_points_weights boundary a b cs))) ]
+      | None => sx_err 2
+      end
+    | _, _, _ => sx_err 1
+    end
+  (* sub 2: (boundary a b level), one dimension -> the attributes Grid1d.set_current_area(a, b, level) stores
+       (num_points num_points_with_boundary lowerBorder upperBorder spacing) and the model's 1D points and weights *)
+  | 2, Lv [Zv bd; a; b; Zv l] =>
+    match get_Qc a, get_Qc b with
+    | Some a, Some b =>
+      let boundary := negb (bd =? 0) in
+      Lv [ Zv (area_num_points boundary l); Zv (area_nwb l); Zv (area_lower boundary); Zv (area_upper boundary l);
+           of_Qc (area_spacing a b l); of_LQc (grid1 boundary a b l); of_LQc (weights1 boundary a b l) ]
+    | _, _ => sx_err 1
+    end
+  (* sub 3: (variant a b lmin lmax (fspec ...) evalpoints), boundary points off -> values per function of the combined interpolant
+       with the TOLERANT boundary test of the code (Model/StdCombiTol.v): variant 0 = np.isclose (current tree), 1 = relative to the
+       extent of the domain (proposed repair), 2 = exact equality *)
+  | 3, Lv [Zv variant; a; b; Zv lmin; Zv lmax; Lv fss; pts] =>
+    match get_LQc a, get_LQc b, get_LLQc pts with
+    | Some a, Some b, Some pts =>
+      match opt_all (map (get_fun a b) fss) with
+      | Some fs =>
+        let cl := if variant =? 0 then cl_numpy else if variant =? 1 then cl_domain else cl_exact in
+        let cs := combi_scheme_standard (length a) lmin lmax in
+        Lv (map (fun f => of_LQc (map (combi_interp_tol cl false a b cs f) pts)) fs)
       | None => sx_err 2
       end
     | _, _, _ => sx_err 1
